@@ -313,6 +313,50 @@ func main() {
 			})
 		}
 		r.Sample("entry", oneArg{Entry: 7, Name: "sem.DefaultParser", Rule: -1, Limit: 2, In: "v\xff😀"})
+		// every substring (all start/end offsets) of valid texts, and each valid text extended by 1..12 bytes: every input length around the
+		// lengths the parsers dispatch on is hit with valid-looking content
+		valids := map[string][]string{
+			"date":  {"2024-02-29", "20240229", "123456789-12-31", "1234567891231"},
+			"roman": {"MMMCMXCIX", "mmmdccclxxxviii", "MDCCCCLXXXXVIIII"},
+			"sem":   {"v1.2.3-rc.1+build.5", "18446744073709551615.0.0-a.b", "1.0.0-0.3.7+exp.sha.5114f85"},
+			"size":  {"1 024 KiB", `{"value":1,"unit":"KiB","x":[1,{"a":null}]}`, `"18 446 744 073 709 551 615 B"`, "16EiB"},
+			"uu":    {"urn:uuid:ed7059f3-6fc0-4b0c-9b7a-2ea5a0b4b8f1", "URN:uuid:ED7059F3-6FC0-4B0C-9B7A-2EA5A0B4B8F1", "ed7059f3-6fc0-4b0c-9b7a-2ea5a0b4b8f1"},
+		}
+		for _, mode := range []int{0, 1, 3} {
+			mode := mode
+			r.Phase(fmt.Sprintf("every substring of valid texts and every extension by 1..12 bytes (4 fill bytes) into every one-input entry point x rule subsets, limit mode %d", mode), "complete for the listed texts", func() {
+				setLimits(mode)
+				r.Parallel(int64(len(entries)), 1, func(w *mc.W, ei int64) {
+					e := entries[ei]
+					seen := map[string]bool{}
+					do := func(s string) {
+						if seen[s] {
+							return
+						}
+						seen[s] = true
+						for _, rule := range e.rules {
+							w.Point()
+							p1.Do(w, oneArg{Entry: int(ei), Name: e.name, Rule: rule, Limit: mode, In: mc.Bin(s)})
+						}
+					}
+					for _, v := range valids[e.pkg] {
+						for i := 0; i <= len(v); i++ {
+							for j := i; j <= len(v); j++ {
+								do(v[i:j])
+							}
+						}
+						for _, fill := range []string{"0", "a", "-", "\xff"} {
+							for k := 1; k <= 12; k++ {
+								do(v + strings.Repeat(fill, k))
+								do(strings.Repeat(fill, k) + v)
+							}
+						}
+					}
+				})
+				r.Serial(func(w *mc.W) { w.Outcome("substrings") })
+				reset()
+			})
+		}
 		// pairs
 		var pool []string
 		pt := []string{"1", "0", ".", "-", "a", "é", "éé", "x", "\xff", "\x00", "😀", "1.0.0", "v1.0.0", "1.0.0-", "+", "01", "ééé", "éééx", "€"}
